@@ -9,6 +9,7 @@ CONSTANTS
   MaxOps = 5
   Faults = {"stmt", "ctx", "commit"}
   AllowGap = TRUE
+  Dups = FALSE
   AllowRestart = TRUE
   AllowReorg = TRUE
   Rollups = {}
